@@ -98,6 +98,10 @@ impl Prop for C08 {
             }
             ps
         };
+        // 1 in 3 programs run with debug attributes (their values depend on the layout, so they
+        // are stripped before graphs are compared)
+        let with_debug = rng.chance(1, 3);
+        const DBG: [&str; 3] = ["dbg_location", "dbg_variable", "dbg_match_node"];
         let mut reference: Option<(Real, String)> = None;
         let mut runs = 0u64;
         for perm in &perms {
@@ -115,7 +119,16 @@ impl Prop for C08 {
                     return;
                 }
             };
-            let rep = exec::execute(&file, &tree, &case.source, &ti, &case.prog.globals, &functions, &ExecOpts::new(true));
+            let mut opts = ExecOpts::new(true);
+            if with_debug {
+                opts.debug_attrs = Some((DBG[0], DBG[1], DBG[2]));
+            }
+            let mut rep = exec::execute(&file, &tree, &case.source, &ti, &case.prog.globals, &functions, &opts);
+            if with_debug {
+                if let Real::Graph(g) = &rep.real {
+                    rep.real = Real::Graph(g.without_attrs(&DBG));
+                }
+            }
             runs += 1;
             out.eval();
             if let Real::Panic(p) = &rep.real {
@@ -156,6 +169,9 @@ impl Prop for C08 {
             }
         }
         out.feat("programs");
+        if with_debug {
+            out.feat("programs_with_debug_attributes");
+        }
         out.feat_n("permutation_runs", runs);
         if let Some((r, text0)) = &reference {
             match r {
